@@ -259,6 +259,32 @@ def main(chk):
     chk.assumptions += ["receivers are Arr / Str values, the index is an Int or a range whose parts are Int or nil (other part types give [] and are outside C11)",
                         "len(s) < 2^62 (the proofs need in64 (2*len+2); Go cannot allocate more)",
                         "Int#at (bit indexing through the same valRange) is not part of C11"]
+    # 3. a range held in a variable and used twice selects what a fresh range selects (and is itself unchanged)
+    def rsrc(a, b, c):
+        f = lambda v: "nil" if v is None else ("(%d)" % v if v < 0 else "%d" % v)
+        return "(%s:%s:%s)" % (f(a), f(b), f(c)) if c is not None else "(%s:%s)" % (f(a), f(b))
+    short_long = [("[1, 2, 3]", list(range(12)), "arr"), ('"ab"', "abcdefghijklmnop", "str"), ("[]", [7, 8, 9, 10, 11], "arr"),
+                  ('""', "xyz", "str"), ("[0, 1, 2, 3, 4, 5, 6, 7, 8, 9, 10, 11]", [1, 2], "arr")]
+    reuse, rmeta = [], []
+    for a, b, c in [(None, None, 5), (None, None, -7), (None, None, 2), (1, None, 4), (None, 9, 3), (-1, None, -3), (2, 30, 6), (None, None, None),
+                    (10, None, -1), (None, -20, -2), (0, 100, 1), (None, None, 11), (None, None, -12)]:
+        for first, second, kind in short_long:
+            sec = ("[" + ", ".join(str(v) for v in second) + "]") if kind == "arr" else '"%s"' % second
+            want = oracle(list(second), ("rng", a, b, c))
+            want = ('"%s"' % "".join(want)) if kind == "str" else ("[" + ", ".join(str(v) for v in want) + "]")
+            reuse.append("r := %s\nx := %s[r]\ny := %s[r]\n[y, r == %s]" % (rsrc(a, b, c), first, sec, rsrc(a, b, c)))
+            rmeta.append((a, b, c, first, sec, "[%s, true]" % want))
+    routs = harness("eval", [{"src": p_} for p_ in reuse], shards=NCPU)
+    for prog, (a, b, c, first, sec, want), r in zip(reuse, rmeta, routs):
+        chk.count(("reuse", prog), True)
+        if not (r["kind"] == "value" and r.get("repr") == want):
+            failing.append((-1, "a range used twice (first on %s, then on %s)" % (first, sec), r.get("repr") or (r.get("errk"), r.get("errmsg")), want))
+            reuse_fail = {"program": prog, "expected": want, "impl": {k: r.get(k) for k in ("kind", "repr", "errk", "errmsg")}}
+            chk.fail("a range held in a variable does not select the same elements the second time: `%s` gives %s, expected %s" % (
+                prog.replace("\n", "; "), r.get("repr") or (r.get("errk"), r.get("errmsg")), want), reuse_fail, klass="C11:range-reuse")
+            break
+    hist["range-reuse"] = len(reuse)
+    failing = [f for f in failing if f[0] != -1]
     # decide -------------------------------------------------------------
     if failing:
         # is a failure with a step beyond the size explained by overflow alone?  re-ask with the step clipped
